@@ -93,3 +93,45 @@ def parse_wrapper(kind, line, col):
             return False, f"{type(ex).__name__} escaped CELParser.parse"
     finally:
         cp.CELParser.CEL_PARSER = saved
+
+
+_DEEP = r"""
+import sys, celpy
+from celpy import celtypes as ct
+src = sys.argv[1]
+for R in (celpy.InterpretedRunner, celpy.CompiledRunner):
+    env = celpy.Environment(runner_class=R)
+    try:
+        prog = env.program(env.compile(src))
+        v = prog.evaluate({"x": ct.IntType(int(sys.argv[2]))})
+        print(R.__name__, "value", repr(v)[:60])
+    except celpy.CELEvalError as e:
+        print(R.__name__, "error", str(e)[:60].replace(chr(10), " "))
+    except celpy.CELParseError as e:
+        print(R.__name__, "parse-error")
+    except BaseException as e:
+        print(R.__name__, "ESCAPE", type(e).__name__)
+"""
+
+
+def deep_expression(calls, lists, adds, terms, zero):
+    """an expression inside CEL's minimum nesting limits, in a fresh process (fresh recursion limit), both runners"""
+    import os
+    import subprocess
+    import sys
+    e = " + ".join(["x"] + ["1"] * adds)
+    if zero:
+        e = f"({e}) / (x - x)"
+    for _ in range(lists):
+        e = f"[{e}][0]"
+    for _ in range(calls):
+        e = f"int({e})"
+    if terms > 1:
+        half = terms // 2
+        e = " || ".join([f"({e}) < 0"] * half) + " || (" + " && ".join([f"({e}) > 0"] * (terms - half)) + ")"
+    env = dict(os.environ)
+    env["PYTHONPATH"] = os.path.join(os.environ.get("VERIF_REPO", "/repo"), "src")
+    p = subprocess.run([sys.executable, "-c", _DEEP, e, "1"], capture_output=True, text=True, env=env, timeout=300)
+    lines = p.stdout.splitlines()
+    bad = [ln for ln in lines if "ESCAPE" in ln] or ([] if len(lines) == 2 else [f"process failed: {p.stderr[-200:]}"])
+    return not bad, f"expression with {calls} nested calls, {lists} nested lists, {adds} additions, {terms} logical terms ({len(e)} chars): {'; '.join(lines) or p.stderr[-200:]}"
